@@ -34,6 +34,9 @@ type dcType struct {
 	Fields     []dcField `json:"fields,omitempty"`
 	Tagged     bool      `json:"tagged,omitempty"`     // carries its own +gengo:deepcopy tag
 	Interfaces bool      `json:"interfaces,omitempty"` // carries +gengo:deepcopy:interfaces=m/obj.Object
+	// Rich (with Interfaces): the tag names m/obj.Rich, an interface that declares a second method (Kind() string), which the
+	// type implements by hand; a dependency that wrongly got DeepCopyObject() obj.Rich as well would not compile
+	Rich bool `json:"rich,omitempty"`
 }
 
 type dcPkg struct {
@@ -67,6 +70,9 @@ func genDCPkg(t *rapid.T, idx int) dcPkg {
 			ty.Kind = "struct"
 		case k == 6:
 			ty.Kind = "generic"
+			if rapid.Bool().Draw(t, "genericlast") {
+				ty.Name = fmt.Sprintf("Z%d", i) // sorts behind every holder: the generic is first met through an instantiation field
+			}
 		case k == 7 || k == 8:
 			ty.Kind = "scalar"
 		case k == 9 || k == 10:
@@ -77,6 +83,7 @@ func genDCPkg(t *rapid.T, idx int) dcPkg {
 		ty.Tagged = !p.PkgTag && rapid.IntRange(0, 2).Draw(t, "tagged") > 0
 		if ty.Kind != "iface" && rapid.IntRange(0, 5).Draw(t, "interfaces") == 0 {
 			ty.Interfaces = true
+			ty.Rich = ty.Kind != "generic" && rapid.Bool().Draw(t, "rich")
 			ty.Tagged = ty.Tagged || !p.PkgTag // the interfaces tag alone enables the generator as well
 		}
 		if ty.Kind == "struct" || ty.Kind == "generic" {
@@ -117,7 +124,9 @@ func genDCPkg(t *rapid.T, idx int) dcPkg {
 					}
 				case fk == 14 && len(generics) > 0 && ty.Kind == "struct":
 					f.Kind, f.Ref = "box", rapid.SampledFrom(generics).Draw(t, "gref")
-					f.Arg = rapid.SampledFrom([]string{"int", "string"}).Draw(t, "garg")
+					// builtin arguments, or a defined scalar type of the package (a struct or map argument would be shared by the generic
+					// DeepCopyInto's plain assignment of its T field, which is outside the stated domain)
+					f.Arg = rapid.SampledFrom(append([]string{"int", "string"}, scalars...)).Draw(t, "garg")
 				default:
 					f.Kind = "int"
 				}
@@ -160,6 +169,15 @@ func genDCPkg(t *rapid.T, idx int) dcPkg {
 		for _, r := range maps {
 			fieldN++
 			ty.Fields = append(ty.Fields, dcField{Name: fmt.Sprintf("F%d", fieldN), Kind: "labels", Ref: r})
+		}
+		for _, r := range generics {
+			// instantiations with a defined scalar type of the package first, then with a builtin type
+			if len(scalars) > 0 {
+				fieldN++
+				ty.Fields = append(ty.Fields, dcField{Name: fmt.Sprintf("F%d", fieldN), Kind: "box", Ref: r, Arg: scalars[0]})
+			}
+			fieldN++
+			ty.Fields = append(ty.Fields, dcField{Name: fmt.Sprintf("F%d", fieldN), Kind: "box", Ref: r, Arg: "int"})
 		}
 		p.Types = append(p.Types, ty)
 	}
@@ -239,7 +257,9 @@ func (p dcPkg) source() string {
 		if ty.Tagged {
 			b.WriteString("// +gengo:deepcopy\n")
 		}
-		if ty.Interfaces {
+		if ty.Interfaces && ty.Rich {
+			b.WriteString("// +gengo:deepcopy:interfaces=m/obj.Rich\n")
+		} else if ty.Interfaces {
 			b.WriteString("// +gengo:deepcopy:interfaces=m/obj.Object\n")
 		}
 		switch ty.Kind {
@@ -263,6 +283,9 @@ func (p dcPkg) source() string {
 			fmt.Fprintf(b, "type %s map[string]string\n", ty.Name)
 		case "iface":
 			fmt.Fprintf(b, "type %s interface{ M() }\n", ty.Name)
+		}
+		if ty.Interfaces && ty.Rich {
+			fmt.Fprintf(b, "\nfunc (%s) Kind() string { return %q }\n", ty.Name, ty.Name)
 		}
 	}
 	return b.String()
@@ -365,7 +388,7 @@ func (l *litCtx) field(f dcField) string {
 		var impl []string
 		for i := range l.p.Types {
 			ty := &l.p.Types[i]
-			if !ty.Interfaces {
+			if !ty.Interfaces || ty.Rich {
 				continue
 			}
 			switch ty.Kind {
@@ -561,7 +584,7 @@ func readOutputs(dir string, pkgs []dcPkg) map[string]string {
 
 func oracleC17(c c17Case) error {
 	m := modspec.Mod{Path: "m", Go: "1.21"}
-	m.Pkgs = append(m.Pkgs, modspec.Pkg{Dir: "obj", Name: "obj", Other: []modspec.File{{Name: "obj.go", Data: "package obj\n\ntype Object interface {\n\tDeepCopyObject() Object\n}\n"}}})
+	m.Pkgs = append(m.Pkgs, modspec.Pkg{Dir: "obj", Name: "obj", Other: []modspec.File{{Name: "obj.go", Data: "package obj\n\ntype Object interface {\n\tDeepCopyObject() Object\n}\n\ntype Rich interface {\n\tDeepCopyObject() Rich\n\tKind() string\n}\n"}}})
 	var entries []string
 	for _, p := range c.Pkgs {
 		m.Pkgs = append(m.Pkgs, modspec.Pkg{Dir: p.Name, Name: p.Name, Other: []modspec.File{{Name: "types.go", Data: p.source()}, {Name: "copy_test.go", Data: p.testSource()}}})
